@@ -318,8 +318,35 @@ impl Value {
     }
 }
 
+// type_of and value_of call themselves once per nesting level of the expression, and once more for every binding they
+// look through. The depth of that recursion is bounded here so that no expression can exhaust the stack of the thread
+// that checks or evaluates it; going beyond it is an ordinary error.
+const EVAL_DEPTH: usize = 256;
+
+thread_local!(static EVAL_USED: std::cell::Cell<usize> = std::cell::Cell::new(0));
+
+struct EvalDepth;
+impl EvalDepth {
+    fn enter() -> Result<Self, Error> {
+        EVAL_USED.with(|used| {
+            let now = used.get();
+            if now >= EVAL_DEPTH {
+                bail!("expression is nested too deeply (more than {} levels)", EVAL_DEPTH)
+            }
+            used.set(now + 1);
+            Ok(EvalDepth)
+        })
+    }
+}
+impl Drop for EvalDepth {
+    fn drop(&mut self) {
+        EVAL_USED.with(|used| used.set(used.get().saturating_sub(1)));
+    }
+}
+
 impl Evaluatable for Value {
     fn type_of(&self, ctx: ScriptContextRef) -> Result<Type, Error> {
+        let _depth = EvalDepth::enter()?;
         tracing::trace!("type_of={}", self);
         use Value::*;
         match self {
@@ -357,6 +384,7 @@ impl Evaluatable for Value {
     }
 
     fn value_of(&self, ctx: ScriptContextRef) -> Result<Value, Error> {
+        let _depth = EvalDepth::enter()?;
         tracing::trace!("value_of={}", self);
         match self {
             Self::Identifier(id) => ctx.lookup(id).and_then(|x| x.value_of(ctx)),
